@@ -66,69 +66,84 @@ def staging_leg(ctx):
 
     from engine import common, evloop
 
+    import tempfile
+
     root = os.path.join(common.scratch_dir(), "c29-stage")
+    tmp_root = os.path.join(common.scratch_dir(), "c29-tmp")
+    os.makedirs(tmp_root, exist_ok=True)
+    saved_tmp = tempfile.tempdir
+    tempfile.tempdir = tmp_root  # script(tempdir=True) scratch directories go here, not under /tmp
     n = 0
     shapes = ["single-staging", "list", "dict", "nested", "self-staged", "stdout", "mixed-const"]
-    for shape in shapes:
-        for n_inputs in (0, 1, 2):
-            shutil.rmtree(root, ignore_errors=True)
-            os.makedirs(os.path.join(root, "remote"))
-            os.makedirs(os.path.join(root, "local"))
-            R = lambda name: os.path.join(root, "remote", name)  # noqa: E731
-            L = lambda name: os.path.join(root, "local", name)  # noqa: E731
-            inputs = []
-            checks = []
-            for i in range(n_inputs):
-                File(R(f"in{i}")).write(f"input-{i}")
-                inputs.append(File(R(f"in{i}")).stage(L(f"in{i}")))
-                checks.append(f'test "$(cat {L(f"in{i}")})" = "input-{i}" || exit 41')
-            o1, o2 = File(R("out1")).stage(L("out1")), File(R("out2")).stage(L("out2"))
-            cmd_out = f'echo -n result1 > {L("out1")}; echo -n result2 > {L("out2")}; echo -n result3 > {R("self")}; echo -n STDOUT'
-            outputs = {"single-staging": o1, "list": [o1, o2], "dict": {"a": o1, "b": o2}, "nested": {"k": [o1, {"z": o2}]},
-                       "self-staged": File(R("self")), "stdout": File("-"), "mixed-const": [o1, 5, "s", File("-")]}[shape]
-            command = "\n".join(checks + [cmd_out])
-            case = {"outputs": shape, "inputs": n_inputs}
-            env = evloop.Env([])
-            try:
-                out = env.run(script(command, inputs=inputs if n_inputs != 1 else inputs[0], outputs=outputs))
-            finally:
-                env.close()
-            n += 1
-            if out[0] != "ok":
-                ctx.violation(f"script-fails:{shape}:inputs={n_inputs}", case, f"{case}: {out!r}")
-                continue
-            res = out[1]
+    for layout in ("separate-dirs", "tempdir-same-names"):
+        for shape in shapes:
+            for n_inputs in (0, 1, 2):
+                shutil.rmtree(root, ignore_errors=True)
+                os.makedirs(os.path.join(root, "remote"))
+                os.makedirs(os.path.join(root, "local"))
+                R = lambda name: os.path.join(root, "remote", name)  # noqa: E731
+                # "tempdir-same-names": script(tempdir=True) is called from the directory holding the remote files and the local (staged) names
+                # are the same names, relative - they live in the fresh scratch directory the command cd's into
+                L = (lambda name: os.path.join(root, "local", name)) if layout == "separate-dirs" else (lambda name: name)  # noqa: E731
+                inputs = []
+                checks = []
+                for i in range(n_inputs):
+                    File(R(f"in{i}")).write(f"input-{i}")
+                    inputs.append(File(R(f"in{i}")).stage(L(f"in{i}")))
+                    checks.append(f'test "$(cat {L(f"in{i}")})" = "input-{i}" || exit 41')
+                o1, o2 = File(R("out1")).stage(L("out1")), File(R("out2")).stage(L("out2"))
+                cmd_out = f'echo -n result1 > {L("out1")}; echo -n result2 > {L("out2")}; echo -n result3 > {R("self")}; echo -n STDOUT'
+                outputs = {"single-staging": o1, "list": [o1, o2], "dict": {"a": o1, "b": o2}, "nested": {"k": [o1, {"z": o2}]},
+                           "self-staged": File(R("self")), "stdout": File("-"), "mixed-const": [o1, 5, "s", File("-")]}[shape]
+                command = "\n".join(checks + [cmd_out])
+                case = {"outputs": shape, "inputs": n_inputs, "layout": layout}
+                env = evloop.Env([])
+                cwd = os.getcwd()
+                try:
+                    if layout != "separate-dirs":
+                        os.chdir(os.path.join(root, "remote"))
+                    out = env.run(script(command, inputs=inputs if n_inputs != 1 else inputs[0], outputs=outputs, tempdir=(layout != "separate-dirs")))
+                finally:
+                    os.chdir(cwd)
+                    env.close()
+                n += 1
+                if out[0] != "ok":
+                    ctx.violation(f"script-fails:{shape}:inputs={n_inputs}:{layout}", case, f"{case}: {out!r}")
+                    continue
+                res = out[1]
 
-            def expect(o):
-                from redun.file import Staging
+                def expect(o):
+                    from redun.file import Staging
 
-                if isinstance(o, Staging):
-                    return ("file", o.remote.path)
-                if isinstance(o, File):
-                    return ("stdout",) if o.path == "-" else ("file", o.path)
-                if isinstance(o, list):
-                    return [expect(x) for x in o]
-                if isinstance(o, dict):
-                    return {k: expect(v) for k, v in o.items()}
-                return ("const", o)
+                    if isinstance(o, Staging):
+                        return ("file", o.remote.path)
+                    if isinstance(o, File):
+                        return ("stdout",) if o.path == "-" else ("file", o.path)
+                    if isinstance(o, list):
+                        return [expect(x) for x in o]
+                    if isinstance(o, dict):
+                        return {k: expect(v) for k, v in o.items()}
+                    return ("const", o)
 
-            def describe(v):
-                if isinstance(v, File):
-                    return ("file", v.path)
-                if isinstance(v, bytes):
-                    return ("stdout",) if v == b"STDOUT" else ("bytes", v)
-                if isinstance(v, list):
-                    return [describe(x) for x in v]
-                if isinstance(v, dict):
-                    return {k: describe(x) for k, x in v.items()}
-                return ("const", v)
+                def describe(v):
+                    if isinstance(v, File):
+                        return ("file", v.path)
+                    if isinstance(v, bytes):
+                        return ("stdout",) if v == b"STDOUT" else ("bytes", v)
+                    if isinstance(v, list):
+                        return [describe(x) for x in v]
+                    if isinstance(v, dict):
+                        return {k: describe(x) for k, x in v.items()}
+                    return ("const", v)
 
-            if describe(res) != expect(outputs):
-                ctx.violation(f"result-shape:{shape}", case, f"{case}: result {describe(res)!r}, expected {expect(outputs)!r}")
-            for name, content in (("out1", "result1"), ("out2", "result2")):
-                used = shape in ("list", "dict", "nested") or (name == "out1" and shape in ("single-staging", "mixed-const"))
-                if used and (not os.path.exists(R(name)) or open(R(name)).read() != content):
-                    ctx.violation(f"output-not-unstaged:{shape}", case, f"{case}: remote {name} missing or wrong after the script")
+                if describe(res) != expect(outputs):
+                    ctx.violation(f"result-shape:{shape}:{layout}", case, f"{case}: result {describe(res)!r}, expected {expect(outputs)!r}")
+                for name, content in (("out1", "result1"), ("out2", "result2")):
+                    used = shape in ("list", "dict", "nested") or (name == "out1" and shape in ("single-staging", "mixed-const"))
+                    if used and (not os.path.exists(R(name)) or open(R(name)).read() != content):
+                        ctx.violation(f"output-not-unstaged:{shape}:{layout}", case, f"{case}: remote {name} missing or wrong after the script")
+    tempfile.tempdir = saved_tmp
+    shutil.rmtree(tmp_root, ignore_errors=True)
     shutil.rmtree(root, ignore_errors=True)
     return n
 
@@ -158,6 +173,6 @@ def run(ctx):
         f"followed by every sequence of <= {n} lines from {len(lines)} lines chosen against the heredoc (EOF, EOF1, EOF2, quotes, $(), backticks, "
         "backslashes, trailing/leading spaces, empty), plain and indented; the wrapper is executed by real bash and its stdout (= the script file) "
         "must equal the reference-prepared command byte for byte; terminator never equals a line; default shell header iff no shebang. Plus "
-        "script() through the scheduler for 7 output shapes x 0-2 staged inputs",
+        "script() through the scheduler for 7 output shapes x 0-2 staged inputs x 2 layouts (local copies in another directory; tempdir=True with the same relative names)",
         "samples": [repr(i) for i in items[:2]],
     }, "assumptions": ["bash and cat are the system's; local filesystem staging only"]}
